@@ -4,7 +4,8 @@
    fields of the record [GeneratedF.libm]. GenEqF*.v prove every generated definition equal to the hand-written model (PointF, VertexF,
    F64, BitAlt, ShiftF). The models are written operation by operation too, so a lemma is an equality of two terms that differ at
    most in the names and the nesting of their lets: [gen_feq] is conversion ([reflexivity]), then congruence up to the commutativity
-   of + and * ([fcong]), then a case split on the conditions. No proof mentions a Go variable name. *)
+   of + and * ([fcong]), then a case split on the conditions (the branch of [x == c], c a finite non-zero literal, knows x = c).
+   No proof mentions a Go variable name. *)
 From Coq Require Import ZArith Bool Floats Lia.
 From SID Require Import F64.
 Open Scope float_scope.
@@ -46,18 +47,69 @@ Ltac fcong :=
       | |- ?f ?a = ?g ?b => apply app_cong; fcong
       end ].
 
+(* ---- x == c with a finite non-zero constant c identifies x (false for c = 0: -0 == 0; NaN is never equal to anything) ---- *)
+Definition nzfin (c : float) : bool := match Prim2SF c with S754_finite _ _ _ => true | _ => false end.
+Lemma feqb_lit_eq c x : nzfin c = true -> (x =? c) = true -> x = c.
+Proof.
+  unfold nzfin. intros Hc H. rewrite eqb_spec in H. unfold SFeqb, SFcompare in H.
+  rewrite <- (SF2Prim_Prim2SF x), <- (SF2Prim_Prim2SF c). f_equal.
+  destruct (Prim2SF c) as [s|s| |s m e]; try discriminate.
+  destruct (Prim2SF x) as [t|t| |t n g]; try discriminate; try (destruct t, s; discriminate).
+  change (Pos.compare_cont Eq n m) with (Pos.compare n m) in H.
+  destruct t, s; try discriminate;
+    (destruct (Z.compare_spec g e); try discriminate; subst;
+     destruct (Pos.compare_spec n m); cbn in H; try discriminate; now subst).
+Qed.
+Lemma feqb_lit_eq_l c x : nzfin c = true -> (c =? x) = true -> x = c.
+Proof.
+  unfold nzfin. intros Hc H. rewrite eqb_spec in H. unfold SFeqb, SFcompare in H.
+  rewrite <- (SF2Prim_Prim2SF x), <- (SF2Prim_Prim2SF c). f_equal.
+  destruct (Prim2SF c) as [s|s| |s m e]; try discriminate.
+  destruct (Prim2SF x) as [t|t| |t n g]; try discriminate; try (destruct t, s; discriminate).
+  change (Pos.compare_cont Eq m n) with (Pos.compare m n) in H.
+  destruct s, t; try discriminate;
+    (destruct (Z.compare_spec e g); try discriminate; subst;
+     destruct (Pos.compare_spec m n); cbn in H; try discriminate; now subst).
+Qed.
+
 Ltac no_if_f t := lazymatch t with context [if _ then _ else _] => fail | _ => idtac end.
 Ltac not_decided c := lazymatch c with true => fail | false => fail | _ => idtac end.
+(* where the condition is an equality with a finite non-zero literal, the true branch learns the value *)
+(* ... and a branch in which an earlier, differently written test of the same equality said otherwise is closed *)
+Ltac eq_contra :=
+  try solve [ exfalso;
+              match goal with
+              | H : PrimFloat.eqb _ _ = _ |- _ => vm_compute in H; discriminate H
+              end ].
+Ltac use_eq E x := first [ subst x | rewrite ?E in * ]; eq_contra.
+Ltac fdestruct c :=
+  lazymatch c with
+  | PrimFloat.eqb ?x ?k =>
+      let E := fresh "E" in
+      destruct c eqn:E;
+      [ try first [ apply (feqb_lit_eq k x) in E; [ use_eq E x | reflexivity ]
+                  | apply (feqb_lit_eq_l x k) in E; [ use_eq E k | reflexivity ] ]
+      | ]
+  | _ => destruct c
+  end.
 (* case split on the conditions, innermost first; the boolean connectives are conditionals too *)
 Ltac fsplit :=
   cbv beta iota zeta delta [negb andb orb];
   repeat match goal with
-         | |- context [if ?c then _ else _] => no_if_f c; not_decided c; destruct c; cbv beta iota
+         | |- context [if ?c then _ else _] => no_if_f c; not_decided c; fdestruct c; cbv beta iota
          end.
+
+(* congruence where it suffices, a case split where it does not: after a split the two sides are compared again up to conversion, so
+   that what a branch has learnt ([x] is the literal) is computed with *)
+Ltac fsolve :=
+  first [ fcong
+        | match goal with
+          | |- context [if ?c then _ else _] => no_if_f c; not_decided c; fdestruct c; cbv beta iota; fsolve
+          end ].
 
 (* [models]: unfolds the hand-written definitions of the right-hand side *)
 Ltac gen_feq models :=
   intros;
   first [ reflexivity
         | repeat autounfold with sidgenf; models; cbv beta iota zeta;
-          first [ fcong | fsplit; fcong ] ].
+          first [ fcong | cbv beta iota zeta delta [negb andb orb]; fsolve ] ].
